@@ -83,6 +83,17 @@ def run (args : List Str) : String × String × String :=
         let b := match back with | some x => encField (render x) | none => "err"
         (encField out ++ "|" ++ b, encField (if j.isObj || j.isArr then b!"{\"data\":" ++ render j ++ [125] else render j) ++ "|" ++ encField (render j),
           if j.isObj || j.isArr then "mdv-wrapped" else "mdv-plain")
+    else if c = str "dv" then
+      -- `res.DataValue[T]{v}` for the static type T the harness chose: always the wrapper object, and
+      -- `UnmarshalDataValue` gets the value back — also for empty slices, maps and strings, zero and false
+      match parse t with
+      | none => ("err", "-", "dv-err")
+      | some j =>
+        let out := b!"{\"data\":" ++ render j ++ [125]
+        let back := (parse out).bind unmarshalDataValue
+        let b := match back with | some x => encField (render x) | none => "err"
+        let o := encField out ++ "|" ++ b
+        (o, encField out ++ "|" ++ encField (render j), "dv")
     else if c = str "udv" then
       let m := match parse t with
         | none => "err"
